@@ -92,10 +92,13 @@ func WithLayerAddTar(rdr io.Reader, mt string, platforms []platform.Platform) Op
 				desc.Size = descPut.Size
 			}
 			// add the layer to the dag
+			// the blob was pushed to the target: later layer steps read it from there and start from its descriptor
 			dm.layers = append(dm.layers, &dagLayer{
 				mod:      added,
 				desc:     desc,
+				newDesc:  desc,
 				ucDigest: ucDig,
+				rSrc:     rTgt,
 			})
 			return nil
 		})
